@@ -74,6 +74,10 @@ def oracle_sequential(spec, res):
             if active is not None or last_finished != len(cmds) - 1:
                 return "connection closed although command %r is active / only %d of %d commands finished" % (active, last_finished + 1, len(cmds))
             closed = True
+    # the generated scripts are valid: no command may raise (a failed chain skips the rest of the script and never closes)
+    for now, t in tl:
+        if t.startswith("chainfailed"):
+            return "a command of a valid script raised (%s): the commands after it are skipped and the connection is never closed" % t
     # a capture finishes asynchronously: between its start and its finish a framebuffer update must have been completed
     # (the reply to its request); a later command's bytes before that would be bytes sent before the capture finished
     cur, seen_commit, seen_save = None, False, False
